@@ -9,6 +9,7 @@ var verifHarnesses = map[string]any{
 	"Verif_T2_Smoke":            Verif_T2_Smoke,
 	"Verif_C02_Faults":          Verif_C02_Faults,
 	"Verif_C02_IOFaults":        Verif_C02_IOFaults,
+	"Verif_C07_EffectsNames":    Verif_C07_EffectsNames,
 	"Verif_C07_Effects":         Verif_C07_Effects,
 	"Verif_C05_AloneVsThree":    Verif_C05_AloneVsThree,
 	"Verif_C05_AloneVsTogether": Verif_C05_AloneVsTogether,
